@@ -70,6 +70,9 @@ def cases(tier, seed):
     for d in BOUNDS[tier]["devices"]:
         meshes.get_device(d, seed)
         out.append(Case(f"conservation:{d}", kind="cons", dev=d, seed=seed))
+    # the requested currents are stated in current_units: a prefix that differs from the length unit's
+    # (mA with um) must still inject exactly the requested current
+    out.append(Case("conservation:bar2:current_units=mA", kind="cons", dev="bar2", seed=seed, current_units="mA"))
     for n in BOUNDS[tier]["acceptance_terminals"]:
         out.append(Case(f"acceptance:n={n}", kind="accept", n=n, seed=seed))
     return out
@@ -99,7 +102,7 @@ def body(H, case):
 
     pot = S.ScriptedPotential(H, [A3(0), A3(1)])
     dt = H.real("dt", lo=0.001, hi=1.0)
-    opts = S.make_options(dt_init=dt, dt_max=dt, adaptive=False)
+    opts = S.make_options(dt_init=dt, dt_max=dt, adaptive=False, current_units=case.params.get("current_units", "uA"))
     solver = S.make_solver(H, dev, opts, A=pot.make_parameter(), currents=currents, validate=False)
     psi_new = H.cplxs("q", ns)
     solver.adaptive_euler_step = lambda step, psi, abs_sq_psi, mu, epsilon, dt_: (psi_new, abs_sq_psi, dt_)
